@@ -420,49 +420,88 @@ example : (hist .long none (longVals [3, 0, 12])).min = 0 ∧ (hist .long none (
 /-- floating instruments: the value itself -/
 theorem conv_double (v : Rat) : Kind.double.conv v = v := rfl
 
-/-- integer instruments: exact up to 2^53 in magnitude … -/
-theorem conv_long_exact (i : Int) (h : i.natAbs ≤ 2 ^ 53) : Kind.long.conv (i : Rat) = (i : Rat) := by
-  show ((roundToDouble (i : Rat).num : Int) : Rat) = (i : Rat)
-  rw [Rat.num_intCast]
-  congr 1
-  unfold roundToDouble
-  by_cases hn : Nat.log2 i.natAbs + 1 ≤ 53
-  · simp [hn]
-  · have ha : i.natAbs ≠ 0 := by
-      intro h0; rw [h0] at hn; exact hn (by decide)
-    have h53 : ¬ i.natAbs < 2 ^ 53 := by
-      intro hlt
-      have := (Nat.log2_lt ha (k := 53)).mpr hlt
-      omega
-    have hab : i.natAbs = 2 ^ 53 := by omega
-    rcases Int.natAbs_eq i with hi | hi <;> rw [hab] at hi <;> rw [hi] <;> decide +kernel
+/-- integer instruments: the value itself as well (since the repair of `BucketBinarySearch(int64_t, …)`) -/
+theorem conv_long (v : Rat) : Kind.long.conv v = v := rfl
 
-/-- … so for `|v| ≤ 2^53` the integer histogram obeys the bucket rule exactly -/
-theorem bucket_spec_long_partial {bs : List Rat} (hs : Sorted bs) (i : Int) (h : i.natAbs ≤ 2 ^ 53) :
-    InBucket bs (bucket (Kind.long.conv (i : Rat)) bs) (i : Rat) := by
-  rw [conv_long_exact i h]; exact bucket_inBucket hs _
+/-- `BucketBoundaryLessThan(boundary, value)` decides `boundary < value` exactly, for every `double` boundary and every
+    `int64_t` value: the content of the repair -/
+theorem boundaryLess_iff (b : Rat) (i : Int) (hr : -(2 ^ 63) ≤ i ∧ i < 2 ^ 63) :
+    boundaryLess b i = true ↔ b < (i : Rat) := by
+  have hhi : Gen.histLongCmpHi = (((2 ^ 63 : Int)) : Rat) := by decide +kernel
+  have hlo : Gen.histLongCmpLo = (((-(2 ^ 63) : Int)) : Rat) := by decide +kernel
+  unfold boundaryLess
+  by_cases h1 : b < Gen.histLongCmpHi
+  · by_cases h2 : b < Gen.histLongCmpLo
+    · simp only [h1, h2, not_true_eq_false, if_false, if_true, true_iff]
+      have : Gen.histLongCmpLo ≤ (i : Rat) := by
+        rw [hlo]; exact Rat.intCast_le_intCast.mpr hr.1
+      exact lt_of_lt_of_le h2 this
+    · simp only [h1, h2, not_true_eq_false, if_false, decide_eq_true_eq]
+      exact Rat.floor_lt_iff
+  · simp only [h1, not_false_eq_true, if_true, Bool.false_eq_true, false_iff]
+    intro hlt
+    apply h1
+    have : (i : Rat) < Gen.histLongCmpHi := by
+      rw [hhi]; exact Rat.intCast_lt_intCast.mpr hr.2
+    exact lt_trans hlt this
 
-/-- integer instruments, values up to 2^53 in magnitude: `counts[i]` is the number of recorded values `v` with
-    `b[i-1] < v ≤ b[i]` -/
-theorem counts_eq_spec_long_partial (cfg : Option Config) (is : List Int) (hs : Sorted (new .long cfg).boundaries)
-    (hr : ∀ i ∈ is, i.natAbs ≤ 2 ^ 53) :
-    (hist .long cfg (longVals is)).counts = specCounts (new .long cfg).boundaries (longVals is) := by
+/-- … so the `int64_t` overload of `BucketBinarySearch` finds the bucket of the exact value -/
+theorem bucketLong_eq_bucket (i : Int) (hr : -(2 ^ 63) ≤ i ∧ i < 2 ^ 63) (bs : List Rat) :
+    bucketLong i bs = bucket (i : Rat) bs := by
+  induction bs with
+  | nil => rfl
+  | cons b bs ih =>
+    unfold bucketLong bucket
+    by_cases h : b < (i : Rat)
+    · rw [if_pos ((boundaryLess_iff b i hr).mpr h), if_pos h, ih]
+    · have : ¬ boundaryLess b i = true := fun hb => h ((boundaryLess_iff b i hr).mp hb)
+      rw [if_neg this, if_neg h]
+
+/-- the code-level `Aggregate(int64_t)` is the model's `aggregate .long` on every `int64_t` value -/
+theorem aggregateLongC_eq (p : Point) (i : Int) (hr : -(2 ^ 63) ≤ i ∧ i < 2 ^ 63) :
+    aggregateLongC p i = aggregate .long p (i : Rat) := by
+  unfold aggregateLongC aggregate
+  rw [bucketLong_eq_bucket i hr, conv_long]
+
+theorem histLongC_eq (cfg : Option Config) (is : List Int) (hr : ∀ i ∈ is, -(2 ^ 63) ≤ i ∧ i < 2 ^ 63) :
+    histLongC cfg is = hist .long cfg (longVals is) := by
+  unfold histLongC hist longVals
+  generalize new Kind.long cfg = p0
+  induction is generalizing p0 with
+  | nil => rfl
+  | cons i is ih =>
+    simp only [List.foldl_cons, List.map_cons]
+    rw [aggregateLongC_eq p0 i (hr i (by simp))]
+    exact ih (fun j hj => hr j (by simp [hj])) _
+
+/-- the integer histogram obeys the bucket rule exactly, for every `int64_t` value (also beyond 2^53) -/
+theorem bucket_spec_long {bs : List Rat} (hs : Sorted bs) (i : Int) (hr : -(2 ^ 63) ≤ i ∧ i < 2 ^ 63) :
+    InBucket bs (bucketLong i bs) (i : Rat) := by
+  rw [bucketLong_eq_bucket i hr]; exact bucket_inBucket hs _
+
+/-- integer instruments: `counts[i]` is the number of recorded values `v` with `b[i-1] < v ≤ b[i]`, for every list of
+    `int64_t` values, through the code-level `Aggregate(int64_t)` -/
+theorem counts_eq_spec_long (cfg : Option Config) (is : List Int) (hs : Sorted (new .long cfg).boundaries)
+    (hr : ∀ i ∈ is, -(2 ^ 63) ≤ i ∧ i < 2 ^ 63) :
+    (histLongC cfg is).counts = specCounts (new .long cfg).boundaries (longVals is) := by
+  rw [histLongC_eq cfg is hr]
   have h := counts_eq_spec .long cfg (longVals is) hs
   have hm : (longVals is).map Kind.long.conv = longVals is := by
-    unfold longVals
-    rw [List.map_map]
-    apply List.map_congr_left
-    intro i hi
-    exact conv_long_exact i (hr i hi)
+    rw [show Kind.long.conv = id from funext fun _ => rfl, List.map_id]
   rw [hm] at h; exact h
 
-example : ((5 : Int)).natAbs ≤ 2 ^ 53 := by decide
+example : (-(2 ^ 63) ≤ (2 ^ 60 + 19 : Int) ∧ (2 ^ 60 + 19 : Int) < 2 ^ 63) := by decide
 
-/-- … and beyond it does not: 2^53+1 is compared as 2^53 and lands below the boundary 2^53 -/
-theorem bucket_spec_long_witness :
-    ¬ InBucket [((2 ^ 53 : Nat) : Rat)] (bucket (Kind.long.conv ((2 ^ 53 + 1 : Int) : Rat)) [((2 ^ 53 : Nat) : Rat)])
+/-- the former finding's input: boundaries {2^60}, values {2^60+19, 2^60} now give counts [1,1] -/
+example : (histLongC (some { boundaries := [((2 ^ 60 : Nat) : Rat)], recordMinMax := true }) [2 ^ 60 + 19, 2 ^ 60]).counts = [1, 1] := by
+  decide +kernel
+
+/-- what the code did before the repair (the value went through `int64_t → double`): 2^53+1 was compared as 2^53 and
+    landed in the bucket below the boundary 2^53 -/
+theorem bucket_long_aswas_witness :
+    ¬ InBucket [((2 ^ 53 : Nat) : Rat)] (bucket (((roundToDouble (2 ^ 53 + 1 : Int)) : Int) : Rat) [((2 ^ 53 : Nat) : Rat)])
         ((2 ^ 53 + 1 : Int) : Rat) := by
-  have hb : bucket (Kind.long.conv ((2 ^ 53 + 1 : Int) : Rat)) [((2 ^ 53 : Nat) : Rat)] = 0 := by decide +kernel
+  have hb : bucket (((roundToDouble (2 ^ 53 + 1 : Int)) : Int) : Rat) [((2 ^ 53 : Nat) : Rat)] = 0 := by decide +kernel
   rw [hb]
   rintro ⟨_, _, h3⟩
   have := h3 (by simp)
